@@ -123,6 +123,28 @@ def run(ctx: Ctx) -> None:
         wreqs.append({"k": "scale", "op": "residual", "tau": f2b(tau)})
         wcases.append((key, wr, ws, br, bs))
 
+    # ---- "arbitrary values", tau up to 1e3, in the narrow dtypes: the result (x + tau f(x))/sqrt(1+tau^2) is about the size of
+    #      f(x), so wherever x, f(x) and that result are representable nothing may overflow on the way (each operand is
+    #      weighted by a factor <= 1 before the sum)
+    for ci, (wdt, mag) in enumerate(((torch.float16, 100.0), (torch.float16, 400.0), (torch.float32, 1e36), (torch.bfloat16, 1e36))):
+        for tau in (300.0, 1000.0, 30.0):
+            key = {"tau": tau, "dtype": str(wdt), "magnitude": mag, "branch": "x -> -0.5 x"}
+            ctx.count(key, bucket="range")
+            xv = (torch.tensor([1.0, -0.75, 0.5, 1.25], dtype=torch.float64) * mag)
+            f_ = lambda t: t * -0.5  # noqa: E731
+            with ctx.guard("C06:call", key):
+                xw = xv.to(wdt).requires_grad_(True)
+                res, skip = U.residual_split(xw, tau)
+                y = U.residual_add(f_(res), skip, tau)
+                ya = U.residual_apply(f_, xv.to(wdt), tau)
+                want = (xv.to(wdt).double() + tau * f_(xv.to(wdt).double())) / math.sqrt(1 + tau * tau)
+                tol_ = {torch.float16: 2e-3, torch.bfloat16: 2e-2, torch.float32: 1e-5}[wdt]
+                for nm_, got_ in (("split/f/add", y), ("residual_apply", ya)):
+                    if not bool(torch.isfinite(got_).all()) or not torch.allclose(got_.double(), want, rtol=tol_, atol=0):
+                        ctx.violation("C06:forward", f"{nm_} does not compute (x + tau f(x))/sqrt(1+tau^2) for large but representable "
+                                      "values (overflow of an intermediate)", key, {"got": got_.double().tolist(), "want": want.tolist()})
+                        break
+
     # ---- the layer input does not require grad, the branch has trainable parameters: the gradient arriving inside the
     #      branch (and hence the branch's weight gradient) must still be the unattenuated upstream gradient
     for ci in range(20 if quick else 400):
